@@ -402,58 +402,136 @@ def check(cx):
             "right": {"Eq": ({"start", "end"}, {1}), "Lt": ({"start"}, {0}), "Le": ({"start"}, {1}), "Gt": ({"end"}, {0}), "Ge": ({"end"}, {1})},
         }
         seen_sides = set()
-        for bi, adt, m, oth, src in enum_switches(p, f):
-            if adt != "sql::parser::ast::BinaryOperator" or len(m) < 2:
-                continue
-            dom = [c for c in eci if f.dominates(c.bb, bi)]
-            if not dom:
-                continue
-            last = max(dom, key=lambda c: sum(1 for d_ in dom if f.dominates(d_.bb, c.bb)))
-            sides = {side_refs[l] for l in f.dep_closure(op_local(last.args[0])) if l in side_refs}
-            if len(sides) != 1:
-                cx.bad(r6, "side-unknown@%s" % sorted(m), last.where(), "cannot tell which operand is the column")
-                continue
-            side = sides.pop()
-            seen_sides.add(side)
-            for var in ("Eq", "Lt", "Le", "Gt", "Ge"):
-                key = "%s:%s" % ("col-op-lit" if side == "left" else "lit-op-col", var)
-                if var not in m:
-                    # not used as a bound: must reach the residual push (sound, merely slower)
-                    reach = f.reachable(oth)
-                    cx.verdict(any(push_target(c) == "residual" and c.bb in reach for c in pushes), r6, key, f.where(),
-                               "kept as residual predicate", "operator %s is neither a bound nor kept as residual" % var)
+        BINOP = "sql::parser::ast::BinaryOperator"
+        arms_found = [x for x in enum_switches(p, f) if x[1] == BINOP and len(x[2]) >= 2 and any(f.dominates(c.bb, x[0]) for c in eci)]
+        if arms_found and not getattr(f, "inlined", None):
+            for bi, adt, m, oth, src in enum_switches(p, f):
+                if adt != "sql::parser::ast::BinaryOperator" or len(m) < 2:
                     continue
-                reg = dominated(f, m[var])
-                vecs = {push_target(c) for c in pushes if c.bb in reg}
-                incl = set()
-                for b_ in reg:
-                    for st in f.blocks[b_]["stmts"]:
-                        rv = st["rv"]
-                        if rv.get("r") == "agg" and str(rv.get("adt", "")).endswith("IndexRangeBound"):
-                            i = rv["fields"].index("inclusive")
-                            k = op_const(rv["o"][i])
-                            incl.add(k.get("v") if k else "non-constant")
-                wv, wi = WANT[side][var]
-                if "non-constant" in incl:
-                    # `inclusive: matches!(op, X)` / `*op == X` in an arm shared by several operators: evaluate it
-                    # for this operator by walking the arm with the operator's discriminant known
-                    v_ = concrete_inclusive(p, f, m[var], src, adt, var)
-                    if v_ is not None:
-                        incl = (incl - {"non-constant"}) | {v_}
-                if "non-constant" in incl and vecs == wv:
-                    # inclusiveness computed at run time (e.g. arms merged with `inclusive: op == Ge`): not a table entry
-                    cx.advisory(r6, key, f.where(), "the `%s` arm computes `inclusive` at run time: side checked (%s), inclusiveness not decided" % (var, sorted(vecs)))
+                dom = [c for c in eci if f.dominates(c.bb, bi)]
+                if not dom:
                     continue
-                cx.verdict(vecs == wv and incl == wi, r6, key, f.where(), "pushes %s, inclusive=%s" % (sorted(vecs), sorted(incl)),
-                           "the `%s` arm for %s pushes onto %s with inclusive=%s, the operator means %s with inclusive=%s: the "
-                           "index scan returns a different row set than the filter it replaces (boundary row lost or added)" % (
-                               var, "column-op-literal" if side == "left" else "literal-op-column", sorted(str(x) for x in vecs),
-                               sorted(str(x) for x in incl), sorted(wv), sorted(wi)))
-            # operators without an arm fall through to the residual
-            reach = f.reachable(oth)
-            cx.verdict(any(push_target(c) == "residual" and c.bb in reach for c in pushes), r6,
-                       "%s:other-operators" % ("col-op-lit" if side == "left" else "lit-op-col"), f.where(),
-                       "other operators reach residual.push", "operators without a bound arm are dropped instead of being kept as residual")
+                last = max(dom, key=lambda c: sum(1 for d_ in dom if f.dominates(d_.bb, c.bb)))
+                sides = {side_refs[l] for l in f.dep_closure(op_local(last.args[0])) if l in side_refs}
+                if len(sides) != 1:
+                    cx.bad(r6, "side-unknown@%s" % sorted(m), last.where(), "cannot tell which operand is the column")
+                    continue
+                side = sides.pop()
+                seen_sides.add(side)
+                for var in ("Eq", "Lt", "Le", "Gt", "Ge"):
+                    key = "%s:%s" % ("col-op-lit" if side == "left" else "lit-op-col", var)
+                    if var not in m:
+                        # not used as a bound: must reach the residual push (sound, merely slower)
+                        reach = f.reachable(oth)
+                        cx.verdict(any(push_target(c) == "residual" and c.bb in reach for c in pushes), r6, key, f.where(),
+                                   "kept as residual predicate", "operator %s is neither a bound nor kept as residual" % var)
+                        continue
+                    reg = dominated(f, m[var])
+                    vecs = {push_target(c) for c in pushes if c.bb in reg}
+                    incl = set()
+                    for b_ in reg:
+                        for st in f.blocks[b_]["stmts"]:
+                            rv = st["rv"]
+                            if rv.get("r") == "agg" and str(rv.get("adt", "")).endswith("IndexRangeBound"):
+                                i = rv["fields"].index("inclusive")
+                                k = op_const(rv["o"][i])
+                                incl.add(k.get("v") if k else "non-constant")
+                    wv, wi = WANT[side][var]
+                    if "non-constant" in incl:
+                        # `inclusive: matches!(op, X)` / `*op == X` in an arm shared by several operators: evaluate it
+                        # for this operator by walking the arm with the operator's discriminant known
+                        v_ = concrete_inclusive(p, f, m[var], src, adt, var)
+                        if v_ is not None:
+                            incl = (incl - {"non-constant"}) | {v_}
+                    if "non-constant" in incl and vecs == wv:
+                        # inclusiveness computed at run time (e.g. arms merged with `inclusive: op == Ge`): not a table entry
+                        cx.advisory(r6, key, f.where(), "the `%s` arm computes `inclusive` at run time: side checked (%s), inclusiveness not decided" % (var, sorted(vecs)))
+                        continue
+                    cx.verdict(vecs == wv and incl == wi, r6, key, f.where(), "pushes %s, inclusive=%s" % (sorted(vecs), sorted(incl)),
+                               "the `%s` arm for %s pushes onto %s with inclusive=%s, the operator means %s with inclusive=%s: the "
+                               "index scan returns a different row set than the filter it replaces (boundary row lost or added)" % (
+                                   var, "column-op-literal" if side == "left" else "literal-op-column", sorted(str(x) for x in vecs),
+                                   sorted(str(x) for x in incl), sorted(wv), sorted(wi)))
+                # operators without an arm fall through to the residual
+                reach = f.reachable(oth)
+                cx.verdict(any(push_target(c) == "residual" and c.bb in reach for c in pushes), r6,
+                           "%s:other-operators" % ("col-op-lit" if side == "left" else "lit-op-col"), f.where(),
+                           "other operators reach residual.push", "operators without a bound arm are dropped instead of being kept as residual")
+        else:
+            # the table is not a match in collect_bounds itself (operator classified by a helper, bound pushed by another, an
+            # intermediate enum in between ...): evaluate it. For each operator the function is walked with that operator as the
+            # known value of every BinaryOperator place (axvlib.absint: only branches decided by known constants are pruned), and
+            # the pushes that remain feasible are collected per operand order with the `inclusive` constant of the pushed bound.
+            from axvlib import absint
+
+            def side_of(c):
+                dom = [e for e in eci if f.dominates(e.bb, c.bb)]
+                if not dom:
+                    return None
+                last = max(dom, key=lambda e: sum(1 for d_ in dom if f.dominates(d_.bb, e.bb)))
+                sd = {side_refs[l] for l in (f.dep_closure(op_local(last.args[0])) | {op_local(last.args[0])}) if l in side_refs}
+                return sd.pop() if len(sd) == 1 else None
+            ptarget = {c.bb: push_target(c) for c in pushes}
+            pside = {c.bb: side_of(c) for c in pushes}
+            pcall = {c.bb: c for c in pushes}
+            undecided = None
+            table = {}
+            for v in [x["name"] for x in p.enum_variants(BINOP)]:
+                def hook(fn_, place, v=v):
+                    if len(place) < 2:
+                        return None
+                    ty = core.place_type(p, fn_, place)
+                    if ty is not None and core.strip_ref(ty) == BINOP and not ty.startswith("&"):
+                        return ("agg", BINOP, v, ())
+                    return None
+                ps = absint.PathSearch(p, f, place_hook=hook)
+                ev = set()
+
+                def on_state(b_, env, ps=ps, ev=ev):
+                    if b_ in pcall and ptarget[b_] in ("start", "end"):
+                        val = ps.operand(env, pcall[b_].args[1])
+                        inc = dict(val[3]).get("inclusive") if val is not None and val[0] == "agg" else None
+                        ev.add((pside[b_], ptarget[b_], inc[1] if inc is not None and inc[0] == "k" else "non-constant"))
+                    elif b_ in pcall and ptarget[b_] == "residual":
+                        ev.add((None, "residual", None))
+                try:
+                    ps.explore(0, on_state=on_state)
+                except absint.TooManyStates as e:
+                    undecided = str(e)
+                    break
+                table[v] = ev
+            if undecided:
+                cx.advisory(r6, "table", f.where(), "index-bound table not evaluated (%s): clause not decided for this run" % undecided)
+                seen_sides = {"left", "right"}
+            else:
+                for side in ("left", "right"):
+                    for var in sorted(table):
+                        got = {(t_, i_) for s_, t_, i_ in table[var] if s_ == side}
+                        unk = {(t_, i_) for s_, t_, i_ in table[var] if s_ is None and t_ != "residual"}
+                        if got:
+                            seen_sides.add(side)
+                        key = "%s:%s" % ("col-op-lit" if side == "left" else "lit-op-col", var)
+                        if unk:
+                            cx.bad(r6, "side-unknown@" + var, f.where(), "cannot tell which operand is the column for a bound pushed under %s" % var)
+                            continue
+                        if var in WANT[side]:
+                            wv, wi = WANT[side][var]
+                            vecs = {t_ for t_, _ in got}
+                            incl = {i_ for _, i_ in got}
+                            if "non-constant" in incl and vecs == wv:
+                                cx.advisory(r6, key, f.where(), "the bound pushed for `%s` computes `inclusive` at run time: side checked (%s), inclusiveness not decided" % (var, sorted(vecs)))
+                                continue
+                            cx.verdict(vecs == wv and incl == wi, r6, key, f.where(), "pushes %s, inclusive=%s" % (sorted(vecs), sorted(incl)),
+                                       "under %s (%s) the function pushes onto %s with inclusive=%s, the operator means %s with inclusive=%s: the "
+                                       "index scan returns a different row set than the filter it replaces (boundary row lost or added)" % (
+                                           var, "column-op-literal" if side == "left" else "literal-op-column", sorted(str(x) for x in vecs),
+                                           sorted(str(x) for x in incl), sorted(wv), sorted(wi)))
+                        elif got:
+                            cx.bad(r6, key, f.where(), "operator %s is turned into an index bound (%s): the index scan answers a different predicate" % (var, sorted(map(str, got))))
+                    others = [var for var in table if var not in WANT[side]]
+                    kept = all(any(t_ == "residual" for _, t_, _ in table[var]) for var in others)
+                    cx.verdict(kept, r6, "%s:other-operators" % ("col-op-lit" if side == "left" else "lit-op-col"), f.where(),
+                               "other operators reach residual.push", "operators without a bound arm are dropped instead of being kept as residual")
         # the bound carries the literal as written: DataType::try_cast truncates (DOUBLE 2.5 -> INT 2), so a literal that is
         # cast to the column type turns `v < 2.5` into `v < 2` with no residual to re-check
         fam = [g for g in p.fns.values() if g.impl_adt == "sql::planner::rules::FilterToIndexScanRule" or (g.root or "").startswith("sql::planner::rules::FilterToIndexScanRule::")]
